@@ -40,6 +40,10 @@ pub struct Case {
     pub treasury: u64,
     pub issuance: Vec<(u8, u64)>,
     pub rounds: Vec<Round>,
+    /// fees are shifted left by this many bits (issuance is generated accordingly): amounts and
+    /// fees up to ~2^60
+    #[serde(default)]
+    pub fee_shift: u8,
 }
 
 #[derive(Debug, Default)]
@@ -149,7 +153,7 @@ pub fn run_case(case: &Case) -> (Vec<(String, String)>, Info) {
                 continue;
             }
             let bal = bal.min(u64::MAX as u128) as u64;
-            let fee = t.fee.min(bal);
+            let fee = t.fee.checked_shl(case.fee_shift as u32).unwrap_or(u64::MAX).min(bal);
             let amount = (((bal - fee) as u128 * t.amount_sel as u128) >> 16) as u64;
             let plan = TxPlan {
                 payer: payer_idx,
@@ -327,6 +331,9 @@ fn eval(c: &mut Ctx, case: &Case, counting: bool) -> Vec<(String, String)> {
         if case.ncfg.heartbeat >= 5000 {
             c.class("heartbeat_5000");
         }
+        if case.fee_shift > 0 {
+            c.class("amounts_and_fees_up_to_2^60");
+        }
         if info.max_height > case.ncfg.gp + 1 {
             c.class("history_past_window_wrap");
         }
@@ -358,8 +365,9 @@ pub fn arb_case(max_rounds: usize) -> impl Strategy<Value = Case> {
         prop_oneof![3 => Just(0u64), 1 => Just(2_000_000u64)],
         prop_oneof![2 => Just(0u64), 1 => 1_000_000u64..1_000_000_000_000u64],
         proptest::collection::vec(arb_round(), 2..max_rounds),
+        prop_oneof![4 => Just(0u8), 1 => Just(30u8)],
     )
-        .prop_map(|(gp, heartbeat, social_stake, treasury, rounds)| Case {
+        .prop_map(|(gp, heartbeat, social_stake, treasury, rounds, fee_shift)| Case {
             ncfg: NodeCfg {
                 gp,
                 heartbeat,
@@ -368,13 +376,14 @@ pub fn arb_case(max_rounds: usize) -> impl Strategy<Value = Case> {
                 prune: 8,
             },
             treasury,
-            issuance: vec![(0, 900_000_000), (0, 800_000_000), (0, 50_000_000), (1, 500_000_000), (2, 600_000_000), (3, 70_000_000), (1, 3_000), (2, 40)],
+            issuance: [(0u8, 900_000_000u64), (0, 800_000_000), (0, 50_000_000), (1, 500_000_000), (2, 600_000_000), (3, 70_000_000), (1, 3_000), (2, 40)].iter().map(|(k, a)| (*k, a << fee_shift)).collect(),
             rounds,
+            fee_shift,
         })
 }
 
 pub fn run(ctx: &mut Ctx) {
-    ctx.rule = "from genesis, 2..N production rounds on the node's own tip: pool content submitted through Mempool::add_transaction_if_validates (several payers, fees 0..4e8, routing paths of 0..3 valid hops ending at the producer), golden ticket present/absent (added when the density rule demands it), timestamp 1 ms .. 20 s after the parent, then the node's own producer Mempool::bundle_block (=> Block::create); configurations: gp in {4,5,6,8,12,100}, heartbeat in {100,5000}, staking off/on (social stake 2e6), genesis treasury 0 or up to 1e12 (rebroadcast payout multiplier > 1 and 5% cap). oracle (differential): every produced block is accepted as the new tip by the producer itself and, after crossing the wire format, by a second independent node holding the same chain, and both end with identical tip and utxoset. evaluations = blocks produced. non-trivial = history with a produced block carrying >= 1 fee-paying transaction and (golden ticket or rebroadcast or routing path); distinct by case digest".into();
+    ctx.rule = "from genesis, 2..N production rounds on the node's own tip: pool content submitted through Mempool::add_transaction_if_validates (several payers, fees 0..4e8 - in one history of five amounts and fees are scaled by 2^30, i.e. up to ~2^60 -, routing paths of 0..3 valid hops ending at the producer), golden ticket present/absent (added when the density rule demands it), timestamp 1 ms .. 20 s after the parent, then the node's own producer Mempool::bundle_block (=> Block::create); configurations: gp in {4,5,6,8,12,100}, heartbeat in {100,5000}, staking off/on (social stake 2e6), genesis treasury 0 or up to 1e12 (rebroadcast payout multiplier > 1 and 5% cap). oracle (differential): every produced block is accepted as the new tip by the producer itself and, after crossing the wire format, by a second independent node holding the same chain, and both end with identical tip and utxoset. evaluations = blocks produced. non-trivial = history with a produced block carrying >= 1 fee-paying transaction and (golden ticket or rebroadcast or routing path); distinct by case digest".into();
     let cases = ctx.tier.pick(800u32, 10_000);
     pbt_run(ctx, "production_rounds", cases, arb_case(26), |c, case, counting| eval(c, case, counting));
 }
